@@ -116,10 +116,13 @@ func funcSubStr(kv KVPair, args []Expression, ctx *ExecuteCtx) (any, error) {
 	}
 	length := int(toInt(rarg, 0))
 	vlen := len(val)
-	if start > vlen-1 {
+	if start < 0 || start > vlen-1 {
 		return "", nil
 	}
 	length = min(length, vlen-start)
+	if length < start {
+		return "", nil
+	}
 	return val[start:length], nil
 }
 
